@@ -161,6 +161,12 @@ impl SecondaryStorage {
         );
     }
 
+    /// Replay hook for the verification framework in /verif: one compaction pass, on demand.
+    #[cfg(feature = "verif_hooks")]
+    pub async fn verif_compact_once(self: &Arc<Self>) -> StorageResult<()> {
+        Compactor::verif_compact_once(self.clone()).await
+    }
+
     pub async fn shutdown(self: &Arc<Self>) -> StorageResult<()> {
         let mut handler = self.compactor_handler.lock().await;
         info!("shutting down compactor");
